@@ -342,6 +342,8 @@ class Script:
             text = '"' + "".join(c.encode("utf-8").hex() for c in wparams[0]["chunks"]) + '"'
             if m.ret == ("unit",):
                 rc = text
+            elif m.ret[0] == "opt":
+                rc = "S(%s)" % text if ret is not None else "N"
             elif ret[0] == "ok":
                 rc = "O(%s)" % text
             else:
